@@ -97,6 +97,12 @@ def scenarios(tier, seed):
                 continue
             for c in sorted(cw) if cw is not None else [-2]:
                 scen.append(dict(b, startSp=ssp, stopSp=tsp, cwd=c))
+    # an unrelated directory whose path and a chain directory's path are string prefixes of one another (proj / project): a walk
+    # that decides "lies above" by comparing spellings instead of path elements takes one for an ancestor of the other
+    unrel = [b for b in base if b["start"] == -1 or b["stop"] == -1]
+    for un in ("pfx", "short"):
+        for b in rnd.sample(unrel, min(len(unrel), 2500 if tier == "quick" else 20000)):
+            scen.append(dict(b, uname=un))
     # chains that run through directories named spokfile (a start / stop directory that is itself called spokfile)
     thr = [b for b in base if any(l["spok"] == "dir" for l in b["levels"][:-1])]
     for b in rnd.sample(thr, min(len(thr), 2500 if tier == "quick" else 20000)):
@@ -117,7 +123,8 @@ def scenarios(tier, seed):
         s.setdefault("startSp", "clean")
         s.setdefault("stopSp", "clean")
         s.setdefault("cwd", -2)
-        k = json.dumps({x: s[x] for x in ("levels", "u", "start", "stop", "startSp", "stopSp", "cwd", "through", "ua")}, sort_keys=True)
+        s.setdefault("uname", "")
+        k = json.dumps({x: s[x] for x in ("levels", "u", "start", "stop", "startSp", "stopSp", "cwd", "through", "ua", "uname")}, sort_keys=True)
         if k not in seen:
             seen.add(k)
             s["id"] = len(out) + 1
@@ -218,7 +225,7 @@ def run(ctx):
     seen = set()
     for s, r in bad:
         shape = (r.get("outcome"), s["start"] == s["stop"], s["start"] == -1 or s["stop"] == -1 or s["stop"] > s["start"],
-                 s["levels"][s["stop"]]["before"] if s["stop"] >= 0 else None, s["startSp"], s["stopSp"], s["through"], len(s["levels"]) > 8)
+                 s["levels"][s["stop"]]["before"] if s["stop"] >= 0 else None, s["startSp"], s["stopSp"], s["through"], len(s["levels"]) > 8, s.get("uname", ""))
         if shape in seen:
             continue
         seen.add(shape)
@@ -229,7 +236,7 @@ def run(ctx):
             continue
         vlib.report(ctx, "Conforms_C17:%s:%s:%s-%s" % (again.get("outcome"), "unconstrained" if shape[2] else ("start=stop" if shape[1] else "below"), s["startSp"], s["stopSp"]),
                     "Find(start=L%s [%s], stop=L%s [%s], cwd=L%s, U under L%s%s) over %d levels %s (U=%s) => %s level=%s" % (
-                        s["start"], s["startSp"], s["stop"], s["stopSp"], s["cwd"], s["ua"], ", chain through directories named spokfile" if s["through"] else "",
+                        s["start"], s["startSp"], s["stop"], s["stopSp"], s["cwd"], s["ua"], (", chain through directories named spokfile" if s["through"] else "") + ({"pfx": ", U named like its chain sibling plus a letter", "short": ", U named like its chain sibling minus a letter"}.get(s.get("uname", ""), "")),
                         len(s["levels"]), [l for l in s["levels"] if l["spok"] != "none"][:6] if len(s["levels"]) > 8 else s["levels"], s["u"],
                         again.get("outcome"), again.get("level")),
                     {"property": "C17", "family": "find", "scenario": s, "observed": again})
